@@ -1,5 +1,5 @@
 From Coq Require Import ExtrOcamlBasic.
-From ChibiV Require Import Common.ExtractBase C18.Spec C18.Model C18.Oracle C18.SpecCont.
+From ChibiV Require Import Common.ExtractBase C18.Spec C18.Model C18.Oracle C18.SpecCont C18.ISet.
 Extraction "model.ml" ext_base spec_sort spec_merge spec_sorted spec_select spec_dedup
   model_sort_less model_sort_basic model_merge95 model_vmerge132 model_scratch_less
   set_mem set_adjoin set_delete set_union set_of_list set_inter set_diff set_xor set_subset set_equal set_disjoint
@@ -9,4 +9,5 @@ Extraction "model.ml" ext_base spec_sort spec_merge spec_sorted spec_select spec
   seq_set seq_take_right seq_drop_right seq_index_mod seq_delete_dups seq_delete seq_count_mod seq_cumulate
   seq_take_while_mod seq_drop_while_mod seq_skip_mod seq_index_right_mod seq_sub seq_reverse_range seq_fill_range
   seq_swap seq_iota seq_partition_mod seq_remove_front seq_remove_back seq_back seq_add_back seq_take seq_drop
+  contains adjoin1 adjoin_list delete1 union2 make_iset0 to_list iset_size is_empty
   seq_append_reverse seq_map1 seq_filter_mod seq_remove_mod seq_any_mod seq_every_mod seq_equal.
